@@ -7,7 +7,7 @@ HOOKS = dict(
 )
 ENGINES = [
     dict(name="tla-conform", path="/verif/check",
-         serves_properties=["C01", "C02"],
+         serves_properties=["C01", "C02", "C04"],
          kind_free_text="TLA+ reference semantics + state machines in /verif/spec, checked by TLC; Rust conformance harness /verif/harness replays TLC-generated cases and records executions that TLC validates (Trace_*.tla)"),
 ]
 NOTES = ("Every check: (M) TLC model-checks the spec module and its sanity theorems, (G) TLC-enumerated cases are executed on the real "
@@ -27,4 +27,11 @@ CLAIMED = {
                      "is evaluated by the real code through five arrival paths and re-judged by TLC; plus random deep expressions.",
                 note="bounded by the leaf pools of spec/World.tla and nesting depth; extension functions beyond decimal are covered by C07. Trusts harness renderers/projections and TLC."),
 }
+CLAIMED["C04"] = dict(category=_MC,
+    text="EntityStore.tla is the store as a state machine (direct parents + data version; ancestors = least fixed point of parent steps; add/upsert/remove/from/"
+         "fromEnforce with their error outcomes). TLC explores every reachable store over 3 uids (complete for histories of any length at the design level) and "
+         "emits every (state, op, argument) transition; the real Entities API replays them and random longer histories over up to 8 uids, and TLC re-derives each "
+         "recorded Hoare triple and all pairwise is_ancestor_of / `in` / ancestors() observations from the abstract state.",
+    note="complete over 3 uids with single-entry batches for the abstract model; conformance on a seeded sample (quick) or all (thorough) generated transitions plus random histories. "
+         "The incremental repair algorithm itself is observed only through its results.")
 NOT_APPLICABLE = {}
